@@ -33,6 +33,7 @@ import (
 	"slices"
 	"sort"
 	"sync"
+	"sync/atomic"
 	"testing"
 	"testing/synctest"
 	"time"
@@ -51,9 +52,10 @@ const (
 	c15Replay         // third address: copy of a genuine packet the endpoint has already accepted
 	c15Stale          // third address: genuine, never delivered packet released after it fell below the replay window
 	c15Trunc          // third address: truncated copy of a genuine packet
+	c15Blocked        // the peer roams while a write of the endpoint is blocked in the socket and further writes are queued behind it
 )
 
-var c15KindNames = []string{"genuine", "roam", "move", "forged", "flip", "replay", "stale", "truncated"}
+var c15KindNames = []string{"genuine", "roam", "move", "forged", "flip", "replay", "stale", "truncated", "roam-while-write-blocked"}
 var c15Regions = []string{"type", "reserved", "session-id", "counter", "body", "tag"}
 
 // replay window of the transport ("receive window of 448", transport/replay.go): a packet more than 448 counters behind
@@ -81,6 +83,7 @@ type c15Step struct {
 	Burst   int    `json:"burst,omitempty"`  // stale: number of later genuine packets delivered before the held one is released (>= 449)
 	App     int    `json:"app,omitempty"`    // before this step the endpoint's application 1: stops reading, 2: resumes reading (0: no change)
 	Extra   int    `json:"extra,omitempty"`  // genuine/roam/move: the peer first sends this many more genuine packets from its current (old) address
+	Queued  int    `json:"queued,omitempty"` // roam-while-write-blocked: number of concurrent writers queued behind the write that is blocked in the socket (1..4)
 }
 
 type c15Case struct {
@@ -208,6 +211,7 @@ type c15Scn struct {
 	cli      *Client
 	h        *Handle
 	peerSock *simnet.Sock
+	eutSock  *simnet.Sock // socket of the endpoint under test
 	sid      SessionID
 	wire     c15Wire
 
@@ -231,6 +235,10 @@ type c15Scn struct {
 
 	eutRd, peerRd c15Reader
 
+	// roam-while-write-blocked steps
+	blocked bool // a write of the endpoint is blocked in the socket, others wait for the handle's write mutex: synctest.Wait cannot be used
+	skip    int  // wire-log mark: datagrams before it have been judged by the step itself
+
 	setupErr string
 	changes  int // genuine address changes
 	advs     int // adversarial datagrams from a third address
@@ -238,6 +246,20 @@ type c15Scn struct {
 }
 
 func (s *c15Scn) label(f string, a ...any) { s.labels[fmt.Sprintf(f, a...)] = true }
+
+// settle lets every goroutine run until nothing more can happen without the harness's next action. While writers of
+// the endpoint wait for the handle's write mutex (not a durable wait) synctest.Wait would never return.
+func (s *c15Scn) settle() bool {
+	if !s.blocked {
+		synctest.Wait()
+		return true
+	}
+	if !vlib.BubbleQuiet(200000) {
+		s.setupErr = "harness: the bubble did not become quiet while a write was blocked in the socket"
+		return false
+	}
+	return true
+}
 
 func (s *c15Scn) peerWrite(b []byte) error {
 	if s.c.Side == 0 {
@@ -307,8 +329,125 @@ func (s *c15Scn) genuine(st c15Step) bool {
 	if s.c.Queue != 0 {
 		// a short queue and a reading application: let the application take the message before the next one arrives
 		// (otherwise whether a burst overflows the queue would depend on the scheduler)
-		synctest.Wait()
+		return s.settle()
 	}
+	return true
+}
+
+// blockedRoam: "subsequent traffic goes to that address" for writes that are already under way when the peer moves.
+// The endpoint's socket stops taking datagrams (a full send buffer: simnet write gate). One write of the endpoint's
+// application blocks inside the socket - its packet is sealed and its destination was handed to the socket before the
+// peer moved -, st.Queued further concurrent writers queue up behind it. Then the peer moves, its genuine packet from the
+// new address is delivered and processed by the endpoint, and only then does the socket drain. Judged: every datagram
+// whose socket write BEGAN after the genuine packet from the new address had been processed goes to the new address. A
+// datagram whose socket write had begun before (the one blocked inside the socket) may carry the old destination.
+func (s *c15Scn) blockedRoam(st c15Step) bool {
+	k := st.Queued
+	if k < 1 {
+		k = 1
+	}
+	if k > 4 {
+		k = 4
+	}
+	what := c15KindNames[c15Blocked]
+	rel := make(chan struct{})
+	released := false
+	release := func() {
+		if !released {
+			released = true
+			close(rel)
+		}
+	}
+	var inSock atomic.Int32
+	s.eutSock.SetWriteGate(func(b []byte, _ *net.UDPAddr, closed <-chan struct{}) {
+		if !s.isSession(b) {
+			return
+		}
+		inSock.Add(1)
+		select {
+		case <-rel:
+		case <-closed:
+		}
+	})
+	defer func() {
+		release()
+		s.eutSock.SetWriteGate(nil)
+		s.blocked = false
+	}()
+	m := s.wire.mark()
+	res := make(chan error, 1+k)
+	go func() { res <- s.eutWrite(vlib.Fill(st.Seed^0xb10c, 1+st.Len%5)) }()
+	synctest.Wait()
+	if inSock.Load() != 1 {
+		select {
+		case err := <-res:
+			s.v.Failf("C15:"+s.side+":endpoint-write-fails-after:"+what, "the endpoint's WriteMsg returned %v without reaching the socket", err)
+		default:
+			s.setupErr = "harness: the first write did not reach the socket"
+		}
+		return false
+	}
+	for i := 0; i < k; i++ {
+		go func(i int) { res <- s.eutWrite(vlib.Fill(st.Seed^0xb10c+uint64(i)+1, 2+i)) }(i)
+	}
+	s.blocked = true
+	if !s.settle() { // the queued writers have gone as far as they can
+		return false
+	}
+	addrBefore := s.addr
+	how := s.move(st)
+	s.label("step:%s:%s", what, how)
+	s.label("step:%s:%d-writers-queued", what, k)
+	if !s.genuine(st) || !s.settle() { // the endpoint has processed the genuine packet from the new address
+		return false
+	}
+	began := int(inSock.Load()) // writes whose socket write had begun before that
+	s.blocked = false
+	release()
+	synctest.Wait()
+	for i := 0; i < 1+k; i++ {
+		select {
+		case err := <-res:
+			if err != nil {
+				s.v.Failf("C15:"+s.side+":endpoint-write-fails-after:"+what, "a WriteMsg of the endpoint that was blocked in the socket or queued behind such a write while the peer moved failed: %v", err)
+				return false
+			}
+		default:
+			s.v.Failf("C15:"+s.side+":write-not-released:"+what, "the socket takes datagrams again but only %d of the %d concurrent WriteMsg calls have returned", i, 1+k)
+			return false
+		}
+	}
+	emitted, old := 0, 0
+	for _, d := range s.wire.since(m) {
+		if !c15Same(d.Src, s.eut) {
+			continue
+		}
+		if !s.isSession(d.Data) {
+			s.label("endpoint-emitted-a-non-session-datagram")
+			continue
+		}
+		emitted++
+		switch {
+		case c15Same(d.Dst, s.addr):
+		case c15Same(d.Dst, addrBefore) && old < began:
+			old++ // its socket write had begun before the genuine packet from the new address arrived
+			s.label("blocked-write-keeps-its-old-destination(allowed)")
+		case c15Same(d.Dst, addrBefore):
+			s.v.Failf("C15:"+s.side+":roaming-not-followed:write-queued-behind-a-blocked-socket-write", "%d writes were queued behind a write blocked in the socket when a genuine fresh packet arrived from %v and was processed; after the socket drained %d datagrams went to the old address %v although only %d socket write(s) had begun before the move", k, s.addr, old+1, addrBefore, began)
+			return false
+		default:
+			s.v.Failf("C15:"+s.side+":unexpected-destination:after-"+what, "the endpoint sends to %v, the last genuine fresh packet came from %v (before: %v)", d.Dst, s.addr, addrBefore)
+			return false
+		}
+		if c15Same(d.Dst, s.cur) {
+			s.wantPeer++
+		}
+	}
+	if emitted != 1+k {
+		s.v.Failf("C15:"+s.side+":session-datagrams-per-write:"+what, "%d WriteMsg calls returned nil and the endpoint put %d session datagrams on the wire", 1+k, emitted)
+		return false
+	}
+	s.skip = s.wire.mark()
 	return true
 }
 
@@ -513,6 +652,8 @@ func (s *c15Scn) step(st c15Step) (class string, from *net.UDPAddr, ok bool) {
 		how := s.move(st)
 		s.label("step:silent-move:%s", how)
 		return "", nil, true
+	case c15Blocked:
+		return "", nil, s.blockedRoam(st)
 	}
 	// adversarial kinds
 	var data []byte
@@ -695,11 +836,11 @@ func c15Scenario(c c15Case, v *vlib.Verdict, s *c15Scn) {
 	s.h = h
 	s.sid = cli.ss.sessionID
 	if c.Side == 0 {
-		s.peerSock = csock
+		s.peerSock, s.eutSock = csock, s.env.SrvSock
 		go s.eutRd.run(h.ReadMsg)
 		go s.peerRd.run(cli.ReadMsg)
 	} else {
-		s.peerSock = s.env.SrvSock
+		s.peerSock, s.eutSock = s.env.SrvSock, csock
 		go s.eutRd.run(cli.ReadMsg)
 		go s.peerRd.run(h.ReadMsg)
 	}
@@ -728,7 +869,7 @@ func c15Scenario(c c15Case, v *vlib.Verdict, s *c15Scn) {
 			return
 		}
 		emitted := 0
-		for _, d := range s.wire.since(m) {
+		for _, d := range s.wire.since(max(m, s.skip)) {
 			if !c15Same(d.Src, s.eut) {
 				continue
 			}
@@ -794,7 +935,7 @@ func c15Run(t *testing.T) func(c c15Case, v *vlib.Verdict) {
 				v.Discard = true
 				return
 			}
-			if st.Kind < 0 || st.Kind > c15Trunc || st.Len < 0 || st.Len > 4096 || ((st.Kind != c15Forged && st.Kind != c15Move && st.Kind != c15Genuine && st.Kind != c15Roam) && st.Len < 1) {
+			if st.Kind < 0 || st.Kind > c15Blocked || st.Queued < 0 || st.Queued > 4 || st.Len < 0 || st.Len > 4096 || ((st.Kind != c15Forged && st.Kind != c15Move && st.Kind != c15Genuine && st.Kind != c15Roam && st.Kind != c15Blocked) && st.Len < 1) {
 				v.Discard = true
 				return
 			}
@@ -880,6 +1021,7 @@ func c15GenStep(t *rapid.T) c15Step {
 		c15Replay, c15Replay, c15Replay,
 		c15Stale,
 		c15Trunc, c15Trunc,
+		c15Blocked, c15Blocked,
 	}).Draw(t, "kind")
 	st := c15Step{Kind: kind, Seed: rapid.Uint64().Draw(t, "seed")}
 	port := func(label string) int {
@@ -891,7 +1033,7 @@ func c15GenStep(t *rapid.T) c15Step {
 	if kind != c15Move {
 		st.Len = rapid.IntRange(1, 120).Draw(t, "len")
 		// a message may be empty: its datagram is header, counter and tag only, and is as genuine and fresh as any
-		if (kind == c15Genuine || kind == c15Roam) && rapid.IntRange(0, 5).Draw(t, "empty") == 0 {
+		if (kind == c15Genuine || kind == c15Roam || kind == c15Blocked) && rapid.IntRange(0, 5).Draw(t, "empty") == 0 {
 			st.Len = 0
 		}
 	}
@@ -902,7 +1044,10 @@ func c15GenStep(t *rapid.T) c15Step {
 		st.Extra = rapid.SampledFrom([]int{0, 0, 0, 0, 0, 0, 1, 1, 2, 3, 6}).Draw(t, "extra")
 	}
 	switch kind {
-	case c15Roam, c15Move:
+	case c15Roam, c15Move, c15Blocked:
+		if kind == c15Blocked {
+			st.Queued = rapid.SampledFrom([]int{1, 1, 1, 2, 3}).Draw(t, "queued")
+		}
 		switch rapid.IntRange(0, 2).Draw(t, "how") {
 		case 0:
 			st.Port = port("port")
@@ -1065,6 +1210,17 @@ func c15Baseline(t *testing.T) {
 			run(c, &v)
 			if !v.OK() || v.Inconclusive != "" || v.Discard || !slices.Contains(v.Labels, "genuine-packet-dropped-at-full-queue") {
 				t.Fatalf("VERIF-MACHINERY C15 baseline (hidden=%v side=%d): honest script without address changes, slow application and a queue of 2, does not pass or does not overflow the queue: %+v %s", hidden, side, v.Violations, v.Inconclusive)
+			}
+			// the peer roams while a write of the endpoint is blocked in the socket and others are queued behind it: the
+			// harness must get through such a step (a violation is left to the search to report, it is not a machinery fault)
+			c = c15Case{Hidden: hidden, Side: side}
+			for i, k := range []int{c15Genuine, c15Blocked, c15Genuine, c15Blocked, c15Blocked} {
+				c.Steps = append(c.Steps, c15Step{Kind: k, Len: 2 + i, Seed: uint64(200 + i), Queued: 1 + i%3, Port: 41000 + i, IP: i % 3})
+			}
+			v = vlib.Verdict{}
+			run(c, &v)
+			if v.Inconclusive != "" || v.Discard || (v.OK() && !slices.Contains(v.Labels, "blocked-write-keeps-its-old-destination(allowed)")) {
+				t.Fatalf("VERIF-MACHINERY C15 baseline (hidden=%v side=%d): script with roams while a write is blocked in the socket: %+v %s labels %v", hidden, side, v.Violations, v.Inconclusive, v.Labels)
 			}
 		}
 	}
